@@ -251,3 +251,60 @@ Section InstCycles.
       + intros s0. apply H1. apply shares_false_disjoint. rewrite shares_sym. exact Hs.
   Qed.
 End InstCycles.
+
+Lemma sched_order_no_perm : forall commI instrs alap random sh so, valid_input instrs ->
+  forall ks ko cycles ks' ko',
+    sched_cycles commI false instrs alap random sh so ks ko = Some (cycles, ks', ko') ->
+    forall i j, i < j -> j < length instrs -> (exists q, uses (ith instrs i) q /\ uses (ith instrs j) q) ->
+      cidx cycles i < cidx cycles j.
+Proof.
+  intros commI instrs alap random sh so Hv ks ko cycles ks' ko' H i j Hij Hj Hs.
+  apply (sched_order commI false instrs alap random sh so Hv ks ko cycles ks' ko' H i j Hij Hj Hs). reflexivity.
+Qed.
+
+(* ---------- examples / the shipped rule for FREDKIN is unsound already on classical bit strings ---------- *)
+Local Open Scope string_scope.
+Definition c05_example : list instr :=
+  [ mkInstr "X" [0] [] [] 1%Q; mkInstr "CNOT" [1] [0] [] 1%Q; mkInstr "X" [1] [] [] 1%Q ].
+
+Lemma c05_example_valid : valid_input c05_example.
+Proof.
+  unfold valid_input, c05_example. split; [discriminate|]. split.
+  - repeat constructor.
+  - eexists. exists 0. split; [left; reflexivity|]. unfold uses. simpl. left. reflexivity.
+Qed.
+
+Lemma c05_example_cycles :
+  sched_cycles commutation_rules true c05_example false false so_asc so_asc 0 0 = Some ([[0; 2]; [1]], 0, 6).
+Proof. vm_compute. reflexivity. Qed.
+
+Lemma c05_example_noperm :
+  sched_cycles commutation_rules false c05_example false false so_asc so_asc 0 0 = Some ([[0]; [1]; [2]], 0, 6).
+Proof. vm_compute. reflexivity. Qed.
+
+(* controlled swap on a classical register (list of bits) *)
+Definition bit (s : list bool) (q : nat) : bool := nth q s false.
+Fixpoint setbit (s : list bool) (q : nat) (b : bool) : list bool :=
+  match s, q with
+  | [], _ => []
+  | _ :: r, 0 => b :: r
+  | x :: r, S q' => x :: setbit r q' b
+  end.
+Definition fredkin_bits (c t1 t2 : nat) (s : list bool) : list bool :=
+  if bit s c then setbit (setbit s t1 (bit s t2)) t2 (bit s t1) else s.
+
+Definition fredkin_a : instr := mkInstr "FREDKIN" [1; 2] [0] [] 1%Q.
+Definition fredkin_b : instr := mkInstr "FREDKIN" [2; 3] [0] [] 1%Q.
+
+Lemma commutation_rules_orig_refuted :
+  commutation_rules_orig fredkin_b fredkin_a = true /\
+  (exists q, uses fredkin_a q /\ uses fredkin_b q) /\
+  exists s, fredkin_bits 0 2 3 (fredkin_bits 0 1 2 s) <> fredkin_bits 0 1 2 (fredkin_bits 0 2 3 s).
+Proof.
+  split; [vm_compute; reflexivity|]. split.
+  - exists 2. unfold uses, fredkin_a, fredkin_b. simpl. tauto.
+  - exists [true; true; false; false]. vm_compute. discriminate.
+Qed.
+
+Lemma commutation_rules_fixed_fredkin : commutation_rules fredkin_b fredkin_a = false.
+Proof. vm_compute. reflexivity. Qed.
